@@ -52,7 +52,11 @@ from fortls.parsers.internal.intrinsics import (
     load_intrinsics,
     set_lowercase_intrinsics,
 )
-from fortls.parsers.internal.parser import FortranFile, get_line_context
+from fortls.parsers.internal.parser import (
+    FortranFile,
+    get_line_context,
+    splitlines,
+)
 from fortls.parsers.internal.scope import Scope
 from fortls.parsers.internal.use import Use
 from fortls.parsers.internal.utilities import (
@@ -1485,8 +1489,8 @@ class LangServer:
         if not isinstance(text, str) or file_obj is None:
             return
         # Nothing to do if the buffer read from disk already holds this text
-        lines = text.splitlines()
-        if file_obj.contents_split in (lines, lines + [""]):
+        # (line for line: a final line break makes a last, empty line)
+        if file_obj.contents_split == splitlines(text):
             return
         self.serve_onChange(
             {
